@@ -89,10 +89,11 @@ theorem C09_contract_finish (r' : T) (hwf : WF r') (ups : List (Update × Path))
 /-- Instance: a batched `rebind` on a dict / object receiver. -/
 theorem C09_contract_rebind (root r' : T) (recv : Path) (pairs : List (Path × T)) (ups : List (Update × Path))
     (hrecv : ∀ m items, getAt root recv ≠ some (.node m .list items))
+    (hnm : pairs.any (fun pv => isMissingLeaf pv.2) = false)
     (hw : writeAll root recv pairs [] = some (r', ups)) (hwf : WF r') :
     (step root recv true (.rebind pairs)).events.Perm (specNotifs r' ups) := by
   have hfin := C09_contract_finish r' hwf ups
-  simp only [step]
+  simp only [step, hnm, Bool.false_eq_true, if_false]
   cases hg : getAt root recv with
   | none => simpa only [hw] using hfin
   | some t =>
@@ -419,9 +420,7 @@ def OpFresh : Op → Prop
 
 private theorem finish_fresh (r' : T) (ups : List (Update × Path)) (n : Bool) (h : Fresh r') :
     Fresh (finish r' ups n).tree := by
-  unfold finish; split
-  · exact resetAll_fresh ups r' h
-  · exact h
+  exact finish_fresh' r' ups n h
 
 /-- FRESHNESS, full strength: after any modelled call — accessor write, `del`, `append`, batched
 `rebind` with any number of pairs, `update`, `clear`, `reverse`, `sort`, `popitem`, `insert`, `pop` / `remove`,
@@ -479,6 +478,17 @@ theorem C09_fresh (n : Bool) (root : T) (recv : Path) (op : Op) (hf : Fresh root
     · exact hf
   | rebind pairs =>
     simp only [step]
+    split
+    · -- some pairs delete
+      split
+      · cases hw : writeAllM root recv pairs.reverse [] with
+        | none => exact hf
+        | some r =>
+          exact finish_fresh _ _ _ (writeAllM_fresh recv pairs.reverse root [] r.1 r.2 hf
+            (fun pv h => hv pv (by simpa using h)) (by simp [hw]))
+      · cases hw : writeAllM root recv pairs [] with
+        | none => exact hf
+        | some r => exact finish_fresh _ _ _ (writeAllM_fresh recv pairs root [] r.1 r.2 hf hv (by simp [hw]))
     split
     · cases hw : writeAll root recv pairs.reverse [] with
       | none => exact hf
